@@ -138,6 +138,10 @@ impl Iterator for FlopExhaustiveEvaluatorIterator {
                 is_materialized = false;
             }
 
+            // the cards of this combo are now taken: later players cannot hold them
+            self.current_used_cards.insert(entry.0[0]);
+            self.current_used_cards.insert(entry.0[1]);
+
             player_card_pairs.push(entry.0);
             probability *= entry.1;
         }
